@@ -56,18 +56,22 @@ func (e *SNIExtension) CheckImplemented() error {
 }
 
 func (e *SNIExtension) Marshal() []byte {
+	if len(e.Domains) == 0 {
+		// an empty server_name_list is not a valid extension: send nothing
+		return []byte{}
+	}
 	result := []byte{}
 	for _, domain := range e.Domains {
-		current := make([]byte, 2+len(domain))
-		copy(current[2:], []byte(domain))
-		current[0] = uint8(len(domain) >> 8)
-		current[1] = uint8(len(domain))
+		current := make([]byte, 3+len(domain))
+		copy(current[3:], []byte(domain))
+		current[0] = 0 // name_type = host_name, one per entry
+		current[1] = uint8(len(domain) >> 8)
+		current[2] = uint8(len(domain))
 		result = append(result, current...)
 	}
-	sniHeader := make([]byte, 3)
-	sniHeader[0] = uint8((len(result) + 1) >> 8)
-	sniHeader[1] = uint8((len(result) + 1))
-	sniHeader[2] = 0
+	sniHeader := make([]byte, 2)
+	sniHeader[0] = uint8(len(result) >> 8)
+	sniHeader[1] = uint8(len(result))
 	result = append(sniHeader, result...)
 
 	extHeader := make([]byte, 4)
